@@ -74,7 +74,7 @@ func genPTSCase(t *rapid.T) PTSCase {
 func TestC15PTS(t *testing.T) {
 	rapid.Check(t, func(rt *rapid.T) {
 		c := genPTSCase(rt)
-		st, err := runPTS(c)
+		st, err := pbt.Safe(runPTS, c)
 		if st == nil {
 			st = &ptsStats{}
 		}
@@ -104,6 +104,12 @@ func genNTPCase(t *rapid.T) NTPCase {
 		c.Steps = append(c.Steps, st)
 		c.ClockAdv = append(c.ClockAdv, rapid.Int64Range(0, 40000000).Draw(t, "clock_adv"))
 	}
+	if rapid.Bool().Draw(t, "with_async_packets") {
+		c.Async = make([]bool, n+1)
+		for k := 1; k <= n; k++ {
+			c.Async[k] = rapid.IntRange(0, 2).Draw(t, "async") != 0
+		}
+	}
 	nr := rapid.IntRange(0, 4).Draw(t, "nreports")
 	for i := 0; i < nr; i++ {
 		c.ReportAt = append(c.ReportAt, rapid.IntRange(0, n).Draw(t, "report_at"))
@@ -123,7 +129,7 @@ func genNTPCase(t *rapid.T) NTPCase {
 func TestC15NTP(t *testing.T) {
 	rapid.Check(t, func(rt *rapid.T) {
 		c := genNTPCase(rt)
-		probed, err := runNTP(c)
+		probed, err := pbt.Safe(runNTP, c)
 		pbt.Count("C15", "ntp_probes", int64(probed))
 		pbt.Check(rt, "C15", "ntp", c, len(c.ReportAt) >= 1 && probed >= 2, []string{"part:ntp"}, func() error { return err })
 	})
